@@ -288,7 +288,7 @@ func c14evalOut(src string) string {
 
 func c14run(r *report.Run) {
 	thorough := r.Tier == "thorough"
-	r.Rule("scalars: bool, all 256 int8/uint8, 32-bit boundary sets, ~5k floats (4 mantissas x 10^-330..10^310, both signs, +-0, Inf, NaN, max, denormal, neighbours of the %v thresholds), strings; containers: every value of depth <=3 over 5 typed leaf pairs built from slices (nil, empty, 1, 2 elements) and nil/empty/single-entry maps of 4 key kinds, linear chains to depth 5, every slice/map chain of depth 4 and 5 that fits the type encoding; Println with 1..4 operands of every kind combination; struct references with 0..4 scalar fields; each through Value.String, println, fmt.Println, fmt.Print, fmt.Sprint; values with a past (maps of four key kinds emptied to 0 or 1 entry by every order of deletes, on their own / in a slice / as a struct field; re-sliced and appended slices; struct types declared again); cyclic graphs on <=3 nodes printed in child processes; non-trivial = distinct rendered value other than a plain small integer")
+	r.Rule("scalars: bool, all 256 int8/uint8, 32-bit boundary sets, ~5k floats (4 mantissas x 10^-330..10^310, both signs, +-0, Inf, NaN, max, denormal, neighbours of the %v thresholds), strings; containers: every value of depth <=3 over 5 typed leaf pairs built from slices (nil, empty, 1, 2 elements) and nil/empty/single-entry maps of 4 key kinds, linear chains to depth 5, every slice/map chain of depth 4 and 5 that fits the type encoding; Println with 1..4 operands of every kind combination; struct references with 0..4 scalar fields; each through Value.String, println, fmt.Println, fmt.Print, fmt.Sprint; values with a past (maps of four key kinds emptied to 0 or 1 entry by every order of deletes, on their own / in a slice / as a struct field; re-sliced and appended slices; struct types declared again with 0, 1, 2, 4 and 10 more fields); cyclic graphs on <=3 nodes printed in child processes; non-trivial = distinct rendered value other than a plain small integer")
 	r.Assume("fmt.Sprint / Sprintln / %+v on the equivalent native value is the oracle; `println` is judged on goatlang's own terms (same text as fmt.Println on stdout)", "multi-entry maps are excluded (iteration order), as in the property")
 	// ---- scalars through a host value bound to a global
 	type sc struct {
@@ -589,48 +589,69 @@ func c14past(r *report.Run) {
 	}
 	// struct types declared again
 	decl := "type P struct {\n\tB int\n\tA string\n\tT []int\n}\n"
-	for _, again := range []string{decl, "type P struct {\n\tB int\n\tA string\n\tT []int\n\tC float64\n}\n"} {
+	// (several added fields: their order must be the declaration's, on every run: goatlang walked a Go map here, so
+	// each such variant is run 16 times on fresh VMs; Go randomizes the walk per map, not per process)
+	type c14added struct{ decl, zero string }
+	addable := []c14added{{"C float64", " C:0"}, {"D bool", " D:false"}, {"E string", " E:"}, {"F int", " F:0"}, {"G int", " G:0"}, {"H int", " H:0"}, {"I int", " I:0"}, {"J int", " J:0"}, {"K int", " K:0"}, {"L int", " L:0"}}
+	type c14again struct {
+		src, extra string
+		reps       int
+	}
+	agains := []c14again{{decl, "", 1}}
+	for _, n := range []int{1, 2, 4, 10} {
+		a := c14again{src: strings.TrimSuffix(decl, "}\n"), reps: 16}
+		if n == 1 {
+			a.reps = 1
+		}
+		for _, f := range addable[:n] {
+			a.src += "\t" + f.decl + "\n"
+			a.extra += f.zero
+		}
+		a.src += "}\n"
+		agains = append(agains, a)
+	}
+	for _, ag := range agains {
 		for _, mode := range []string{"Eval", "Load"} {
-			m := goat.New()
-			imports := map[string]string{}
-			extra := ""
-			if again != decl {
-				extra = " C:0"
-			}
-			var r1, r2, r3 goat.Result
-			// (how an instance created before a field was added renders is not fixed by the property: it is only printed
-			// when the declaration is repeated unchanged)
-			use := "x := &P{B: 2, A: \"m\"}\nprintln(x)\nfmt.Println(x)\nfmt.Print(fmt.Sprint(old))\n"
-			want := "&{B:2 A:m T:[]" + extra + "}\n&{B:2 A:m T:[]" + extra + "}\n&{B:1 A:o T:[7]}"
-			if again != decl {
-				use = strings.Replace(use, "fmt.Print(fmt.Sprint(old))", "fmt.Print(len(fmt.Sprint(old)) > 0)", 1)
-				want = "&{B:2 A:m T:[]" + extra + "}\n&{B:2 A:m T:[]" + extra + "}\ntrue"
-			}
-			if mode == "Eval" {
-				r1 = m.Eval(nil, "import \"fmt\"\n"+decl+"old := &P{B: 1, A: \"o\", T: []int{7}}\n", goatlang.WithEvalImports(imports))
-				r2 = m.Eval(nil, again, goatlang.WithEvalImports(imports))
-				m.Out.Reset()
-				r3 = m.Eval(nil, use, goatlang.WithEvalImports(imports))
-			} else {
-				pkg := func(d string) map[string]string {
-					return map[string]string{"q/q.go": "package q\n\nimport \"fmt\"\n\n" + d + "\nvar old = &P{B: 1, A: \"o\", T: []int{7}}\n\nfunc Use() {\n\t" + strings.ReplaceAll(strings.TrimSpace(use), "\n", "\n\t") + "\n}\n"}
+			for rep := 0; rep < ag.reps; rep++ {
+				again, extra := ag.src, ag.extra
+				m := goat.New()
+				imports := map[string]string{}
+				var r1, r2, r3 goat.Result
+				// (how an instance created before a field was added renders is not fixed by the property: it is only printed
+				// when the declaration is repeated unchanged)
+				use := "x := &P{B: 2, A: \"m\"}\nprintln(x)\nfmt.Println(x)\nfmt.Print(fmt.Sprint(old))\n"
+				want := "&{B:2 A:m T:[]" + extra + "}\n&{B:2 A:m T:[]" + extra + "}\n&{B:1 A:o T:[7]}"
+				if again != decl {
+					use = strings.Replace(use, "fmt.Print(fmt.Sprint(old))", "fmt.Print(len(fmt.Sprint(old)) > 0)", 1)
+					want = "&{B:2 A:m T:[]" + extra + "}\n&{B:2 A:m T:[]" + extra + "}\ntrue"
 				}
-				r1 = m.Load(goat.FS(pkg(decl)), "q")
-				// state is kept across a reload only where the declaration is not run again; here `old` is rebuilt by the reload
-				r2 = m.Load(goat.FS(pkg(again)), "q")
-				m.Out.Reset()
-				r3 = m.Call("q.Use", 0)
-			}
-			got := m.Out.String()
-			if r1.Failed() || r2.Failed() || r3.Failed() {
-				got = "first: " + r1.String() + "; again: " + r2.String() + "; use: " + r3.String()
-			}
-			m.Close()
-			r.Eval(3)
-			key := "struct type declared again (" + mode + "):\n" + decl + "... then ...\n" + again + use
-			r.Nontrivial(key)
-			if got != want {
-				r.Fail(&report.Case{Kind: "past-struct", Key: key, Want: want, Got: got})
+				if mode == "Eval" {
+					r1 = m.Eval(nil, "import \"fmt\"\n"+decl+"old := &P{B: 1, A: \"o\", T: []int{7}}\n", goatlang.WithEvalImports(imports))
+					r2 = m.Eval(nil, again, goatlang.WithEvalImports(imports))
+					m.Out.Reset()
+					r3 = m.Eval(nil, use, goatlang.WithEvalImports(imports))
+				} else {
+					pkg := func(d string) map[string]string {
+						return map[string]string{"q/q.go": "package q\n\nimport \"fmt\"\n\n" + d + "\nvar old = &P{B: 1, A: \"o\", T: []int{7}}\n\nfunc Use() {\n\t" + strings.ReplaceAll(strings.TrimSpace(use), "\n", "\n\t") + "\n}\n"}
+					}
+					r1 = m.Load(goat.FS(pkg(decl)), "q")
+					// state is kept across a reload only where the declaration is not run again; here `old` is rebuilt by the reload
+					r2 = m.Load(goat.FS(pkg(again)), "q")
+					m.Out.Reset()
+					r3 = m.Call("q.Use", 0)
+				}
+				got := m.Out.String()
+				if r1.Failed() || r2.Failed() || r3.Failed() {
+					got = "first: " + r1.String() + "; again: " + r2.String() + "; use: " + r3.String()
+				}
+				m.Close()
+				r.Eval(3)
+				key := "struct type declared again (" + mode + "):\n" + decl + "... then ...\n" + again + use
+				r.Nontrivial(key)
+				if got != want {
+					r.Fail(&report.Case{Kind: "past-struct", Key: key, Want: want, Got: got})
+					break
+				}
 			}
 		}
 	}
